@@ -900,3 +900,49 @@ Proof.
   vm_compute. repeat split.
 Qed.
 End C02_translated_guards.
+
+(* ------------------------------------------------------------------------------------------ *)
+(* ec_write AND THE BUFFER'S NAME (after fix 268c549).  DirtyDefs.nbuf = a buffer with its name (None = the unnamed buffer of an
+   editor started without a file name); DirtyDefs.ec_write_named = what ec_write does to name and saved state by target: a PIPE
+   (`w !cmd`) changes nothing -- it is not adopted as a name and is never the own path --, no argument = the own path (fails for
+   the unnamed buffer), a path = adopted by the unnamed buffer, then the own-path tail (lbuf_saved for the whole buffer,
+   lbuf_unsaved for a part), or a write elsewhere.  Histories DirtyDefs.nop: edits, command boundaries, undo, redo, reloads (of a
+   buffer that has a name), writes by target. *)
+Theorem C02_pipe_write_neutral : forall (f : nbuf) (b en : nat), ec_write_named WPipe b en f = (f, false).
+Proof. exact pipe_write_neutral. Qed.
+Print Assumptions C02_pipe_write_neutral.
+
+(* over ALL histories from either start: clean => text = ghost disk; a buffer without a name has nothing on disk; a write to a
+   pipe leaves name, text, log, undo position, ghost disk and flag unchanged *)
+Theorem C02_named_history_sound : forall (f0 : nbuf) (ops : list nop), nstart f0 -> let f := nrun f0 ops in
+  (dirty_flag (nb f) = false -> ln (lb (nb f)) = disk (nb f)) /\
+  (nname f = None -> disk (nb f) = []) /\
+  forall b en, let f' := nrun_op f (NWrite WPipe b en) in
+    nname f' = nname f /\ content (nb f') = content (nb f) /\ dirty_flag (nb f') = dirty_flag (nb f) /\ disk (nb f') = disk (nb f).
+Proof. exact named_history_sound. Qed.
+Print Assumptions C02_named_history_sound.
+
+(* the repaired behaviour: after ANY history of an editor started without a file name, a buffer that still has no name and holds
+   some text is reported modified, also after writing it to a pipe; :q over any table holding it and the guard of :e / :b refuse *)
+Theorem C02_unnamed_pipe_quit : forall (ops : list nop) (b en : nat) (pre post : list ebuf), let f := nrun nbuf_new ops in
+  nname f = None -> ln (lb (nb f)) <> [] ->
+  let f' := nrun_op f (NWrite WPipe b en) in
+  nname f' = None /\ ln (lb (nb f')) = ln (lb (nb f)) /\ dirty_flag (nb f') = true /\
+  snd (ec_quit false (pre ++ nb f' :: post)) = false /\ snd (guard_current false (nb f' :: post)) = true.
+Proof. exact unnamed_pipe_quit. Qed.
+Print Assumptions C02_unnamed_pipe_quit.
+
+(* not vacuous -- the repro of the finding: no file name; a foo; :w !cat: no name, flag on, :q refused; :w (no argument) fails and
+   changes nothing; :w 7 (a path) names the buffer, ghost disk foo, flag off, :q exits; a pipe write after that changes nothing; a
+   partial write :1w 7 of a two-line buffer to its own name leaves the flag on *)
+Example C02_pipe_write_nonvacuous :
+  let foo := [102; 111; 111; 10]%N in
+  let f1 := nrun nbuf_new [NEdit (Some foo) 0 0; NBump; NWrite WPipe 0 1; NBump] in
+  let f2 := nrun f1 [NWrite (WPath 7) 0 1; NBump] in
+  let f3 := nrun f2 [NEdit (Some foo) 1 1; NBump; NWrite (WPath 7) 0 1; NBump] in
+  nname f1 = None /\ dirty_flag (nb f1) = true /\ snd (ec_quit false [nb f1]) = false /\
+  ec_write_named WOwn 0 1 f1 = (f1, true) /\
+  nname f2 = Some 7%nat /\ dirty_flag (nb f2) = false /\ disk (nb f2) = [foo] /\ snd (ec_quit false [nb f2]) = true /\
+  nrun_op f2 (NWrite WPipe 0 1) = f2 /\
+  dirty_flag (nb f3) = true /\ disk (nb f3) = [foo] /\ ln (lb (nb f3)) = [foo; foo].
+Proof. vm_compute. repeat split. Qed.
